@@ -50,7 +50,10 @@ def run(ctx):
         lp = db.parent.get(ce[0])
         while lp is not None and not isinstance(lp, ast.For):
             lp = db.parent.get(lp)
-        seq = lp.iter.args[0] if lp is not None and isinstance(lp.iter, ast.Call) and call_name(lp.iter) == "enumerate" and lp.iter.args else None
+        # `for i, h in enumerate(seq)` or `for h in seq` with an explicit counter
+        seq = None
+        if lp is not None:
+            seq = lp.iter.args[0] if isinstance(lp.iter, ast.Call) and call_name(lp.iter) == "enumerate" and lp.iter.args else lp.iter
         from_children = seq is not None and src(seq) == "child_call_hashes"
         if seq is not None and isinstance(seq, ast.Name) and not from_children:
             defs = [a for a in ast.walk(rc) if isinstance(a, ast.Assign) and src(a.targets[0]) == seq.id]
